@@ -112,7 +112,7 @@ PROPS["C08"] = {
     "level": "proof", "theorems": _GEN["C08"], "theorem_kinds": {},
     "rule": "update pools from seeded histories (transaction updates, diffs against stale vectors, full states of replicas with gaps and GC blocks): merge_updates vs sequential application (v1, v2; duplicates, shuffled, nested), diff_updates vs apply, encode_state_vector_from_update on gap-free states; the Coq model decodes merged v1 updates and must reach the state it reaches from the inputs; every merge (2..5 arguments, four per case, and one of 22..40 arguments per case) is also computed by the extracted transcription of Update::merge_updates (Crdt/Merge.v) and must give the same update (same bytes, or the same decoded blocks where the implementation writes Any maps in hash order); likewise every diff_updates_v1 and encode_state_vector_from_update_v1 against the transcriptions of Crdt/Diff.v; the share of argument lists satisfying the hypothesis of the unit-preservation theorems (mrg_wf / mrg_wf_norm) is recorded. Documents are compared on public content, visible item order, integrated and deleted id sets, pending flag. Because yrs stashes the rest of a client's blocks behind a block with a missing dependency, a merged update may lag behind the sequential application until the dependency arrives: such a difference is accepted only if it disappears once every message of the history is delivered (counted as c08_merge_stash_lag_only)",
     "trusted_base": [_MODEL_NOTE, "Update::merge_updates is transcribed by hand (Crdt/Merge.v); slice::sort_by is modelled as a stable insertion sort, which is exact because the comparator is proved to be a total preorder"],
-    "modelled_not_verified": ["the v2 entry points (merge_updates_v2, diff_updates_v2, ...) beyond their v2 codec"], "assumptions": [],
+    "modelled_not_verified": ["the v2 entry points (merge_updates_v2, diff_updates_v2, encode_state_vector_from_update_v2) are the same transcribed functions between the v2 codecs of Codec/UpdateV2.v / WireV2.v: tied by correspondence (runner MRG merge2, DFF diff2, DFF sv2), no separate theorem"], "assumptions": [],
 }
 PROPS["C13"] = {
     "level": "proof", "theorems": _GEN["C13"], "theorem_kinds": {},
